@@ -16,7 +16,7 @@ THEOREMS = ["Adc.checkEquiv_sound", "Adc.alpha_sound", "Adc.normExpr_sound", "Ad
 
 def canonical_key(term):
     """python-side canonical key of an exported term modulo alpha-renaming/symmetries (untrusted)"""
-    t2, _ = C.eliminate_deltas(term)
+    t2 = term     # pure alpha-equivalence: no delta evaluation
     try:
         sigma, _ = C.canonical_renaming(t2, 3000)
     except C.Budget:
@@ -70,8 +70,8 @@ def check_pair(ctx, e_in, e_out, label, meta):
             tn, tm = x_out[n], x_out[m]
             for sgn in (1, -1):
                 scaled = (tn[0] * sgn, tm[1], tm[2])
-                c1, _ = C.certify_expr([tn])
-                c2, _ = C.certify_expr([scaled])
+                c1, _ = C.certify_expr([tn], elim=False)
+                c2, _ = C.certify_expr([scaled], elim=False)
                 ans = ctx.drv().ask({"op": "equiv", "e1": X.j_expr([tn]), "e2": X.j_expr([scaled]), "c1": c1, "c2": c2})
                 if ans.get("ok"):
                     replay["unmerged_terms"] = [X.term_str(tn), X.term_str(tm)]
@@ -92,6 +92,22 @@ def synthetic(ctx, n_expr):
         nbase = rng.randint(1, 3)
         explicit = rng.random() < 0.6
         base = tg.random_term(with_denom=0.0)
+        if it % 4 == 3:
+            # structured stream: a bra-ket (anti)symmetric two-particle tensor carrying two target indices
+            # of one class, one in the bra and one in the ket, contracted with a partner tensor
+            sp = rng.choice(["o", "v"])
+            pool = tg.pool(sp, 4)
+            other = tg.pool("v" if sp == "o" else "o", 3)
+            t1, t2, c1 = pool[0], pool[1], pool[2]
+            c2 = rng.choice([pool[3], other[0]])
+            name, cls, bk = rng.choice([("V", "asym", 1), ("X", "asym", -1), ("Sy", "sym", 1), ("V", "asym", 0)])
+            slots = [(t1, c1), (t2, c2)]
+            if rng.random() < 0.5:
+                slots = [(c1, t1), (c2, t2)]
+            big = (cls, name, slots[0], slots[1], bk)
+            partner = rng.choice([("asym", "d", (c1,), (c2,), 0), ("nonsym", "Nt", (c1, c2), (), 0),
+                                  ("asym", "f", (c2,), (c1,), 1)])
+            base = (rng.choice([1, -1, 2]), [big, partner])
         idxs = G.term_indices(base)
         if explicit:
             uniq = sorted(set(idxs))
@@ -109,9 +125,13 @@ def synthetic(ctx, n_expr):
                 nm = G.near_miss(rng, b)
                 if nm is not None:
                     terms.append(nm)
+            if rng.random() < 0.5:
+                ts = G.target_swap_variant(rng, b, targets)
+                if ts is not None:
+                    terms.append((rng.choice([b[0], -b[0]]), ts[1]))
         rng.shuffle(terms)
-        real = rng.random() < 0.3
-        symt = ["Sy"] if rng.random() < 0.2 else None
+        real = rng.random() < 0.4
+        symt = rng.sample(["Sy", "X", "W", "d"], rng.randint(1, 2)) if rng.random() < 0.3 else None
         try:
             sy = G.build_expr(terms)
             kwargs = dict(real=real, sym_tensors=symt)
@@ -136,7 +156,7 @@ def synthetic(ctx, n_expr):
 
 
 def run(ctx):
-    synthetic(ctx, ctx.pick(120, 2500))
+    synthetic(ctx, ctx.pick(500, 5000))
     for label, e_in, e_out in organic.simplify_pairs(ctx, ctx.pick("quick", "thorough")):
         check_pair(ctx, e_in, e_out, label, {"organic": label})
 
